@@ -12,8 +12,12 @@
       (commit 5970db5), numerators and rounding (commit 02cb64a) in `i64`;
     * the miter length of `LineJoin::from_points` (src/primitives/common/line_join.rs): `i64`
       (commit 77b3eec), `miter_limit = (width * 2).pow(2)` in `u32`.
-  The intersection code has no plain model elsewhere in this tree: `Isect.*` is the plain
-  (unbounded) form, `Chk.Isect.*` the checked one. `Chk.Old.*` = the widths before the repairs.
+  `Isect.*` is the plain (unbounded) form of the intersection code in the shape of the checked
+  kernels, `Chk.Isect.*` the checked one. `Chk.Old.*` = the widths before the repairs.
+  The plain model the geometric theorems (C02 / C07 / C17 / C19) and `Driver/Thick.lean` use is
+  `EG.Joins` (Model/LinearEquation.lean, Intersection.lean, LineJoin.lean), written independently
+  from the same source; Lemmas/IsectJoins.lean proves `Isect.f = Joins.f` for every function both
+  define (all inputs), and Props/C08/JoinsLink.lean restates the range theorems against `Joins`.
 -/
 import EG.Model.CheckedShapes
 import EG.Model.ThickLine
